@@ -158,11 +158,31 @@ func goroutineIDs() map[int]bool {
 	return out
 }
 
+// leaksSeen / hangsSeen count the cases of this process that already reported a leak / a hang. The
+// generous deadlines exist to tell a slow exit from a leak; once several cases have established
+// that the tree under test leaks or hangs, later cases use a short deadline so that a run over a
+// badly broken tree still ends (the first failures, and every re-run made while shrinking, which
+// uses a fresh process, are judged with the full deadline).
+var leaksSeen, hangsSeen atomic.Int64
+
 func c01deadline(env string, def time.Duration) time.Duration {
+	d := def
 	if v, err := strconv.Atoi(os.Getenv(env)); err == nil && v > 0 {
-		return time.Duration(v) * time.Millisecond
+		d = time.Duration(v) * time.Millisecond
 	}
-	return def
+	if env == "VERIF_LEAK_DEADLINE_MS" && leaksSeen.Load() >= 8 {
+		d = d / 50
+		if d < 50*time.Millisecond {
+			d = 50 * time.Millisecond
+		}
+	}
+	if env == "VERIF_HANG_DEADLINE_MS" && hangsSeen.Load() >= 3 {
+		d = d / 10
+		if d < time.Second {
+			d = time.Second
+		}
+	}
+	return d
 }
 
 // leakedAfterQuiescence polls until no goroutine created since `baseline` has a frame inside the
@@ -194,6 +214,7 @@ func leakedAfterQuiescence(baseline map[int]bool) []string {
 				}
 			}
 			sort.Strings(left)
+			leaksSeen.Add(1)
 			return left
 		}
 		time.Sleep(pause)
@@ -442,6 +463,7 @@ func c01case(s *Sexp) string {
 	defer cancel()
 	ok := withinHang(func() { c01run(cfg, o, ctx, cancel) })
 	if !ok {
+		hangsSeen.Add(1)
 		o.mu.Lock()
 		for i := range o.end {
 			if o.end[i] == "" {
